@@ -408,6 +408,40 @@ impl<'t> Int<'t> {
     }
 }
 
+#[cfg(qvnt_verif)]
+pub(crate) fn verif_process<'t>(name: &'t str, regs: Vec<N>, args: Vec<R>) -> Result<'t, MultiOp> {
+    gates::process(name, regs, args)
+}
+
+#[cfg(qvnt_verif)]
+impl<'t> Int<'t> {
+    pub fn verif_m_op(&self) -> MeasureOp {
+        self.m_op
+    }
+
+    pub fn verif_q_reg(&self) -> &[&'t str] {
+        &self.q_reg
+    }
+
+    pub fn verif_c_reg(&self) -> &[&'t str] {
+        &self.c_reg
+    }
+
+    pub fn verif_q_ops(&self) -> &ExtOp {
+        &self.q_ops
+    }
+
+    pub fn verif_macros(&self) -> String {
+        let mut v = self
+            .macros
+            .iter()
+            .map(|(k, m)| format!("{k}={m:?}"))
+            .collect::<Vec<_>>();
+        v.sort();
+        v.join(";")
+    }
+}
+
 #[cfg(test)]
 mod tests {
     use super::*;
